@@ -406,22 +406,25 @@ INERT_LINES = ['# comment', '#', '', '  ', '\t', '   # indented, with, commas', 
 
 
 def insert_inert(r, text, eol='\n', n=None):
-    """insert blank / comment physical lines at line boundaries of `text` (whose line ends are `eol`)"""
+    """insert blank / comment physical lines at line boundaries of `text` (whose line ends are `eol`).  A last line without line end
+    stays last and stays without line end (a line inserted behind it would change IT: it would gain a line end — inside an
+    unterminated quoted cell that is data)."""
     lines = text.split(eol)
     last_open = lines[-1] != ''          # no final newline
     body = lines if last_open else lines[:-1]
-    out = []
     n = r.choice([1, 1, 2, 4]) if n is None else n
-    spots = sorted(r.randrange(len(body) + 1) for _ in range(n))
+    slots = len(body) if last_open else len(body) + 1
+    if slots == 0:
+        return text
+    spots = sorted(r.randrange(slots) for _ in range(n))
+    out = []
     for i, l in enumerate(body + [None]):
         while spots and spots[0] == i:
             spots.pop(0)
             out.append(r.choice(INERT_LINES))
         if l is not None:
             out.append(l)
-    if last_open and out[-1] is body[-1]:
-        return eol.join(out)
-    return eol.join(out) + eol
+    return eol.join(out) if last_open else eol.join(out) + eol
 
 
 HOSTILE_FILES = [
@@ -560,12 +563,28 @@ def oracle_B(text, exp, b):
     return None
 
 
+def kept_physical_lines(text):
+    """the hypothesis of `comment_lines_inert`, computed here: the physical lines (after newline translation) that are neither blank
+    nor comments"""
+    t = text.replace('\r\n', '\n').replace('\r', '\n')
+    return [l for l in re.findall(r'[^\n]*\n|[^\n]+', t) if l.strip() and not l.strip().startswith('#')]
+
+
+def inert_variant(text, variant):
+    """is `variant` = `text` with blank / comment physical lines inserted (or CRLF line ends on a CR-free text)?"""
+    if '\r' not in text and variant == text.replace('\n', '\r\n'):
+        return True
+    return kept_physical_lines(text) == kept_physical_lines(variant)
+
+
 def oracle_C(r, text, b, eol='\n'):
     """metamorphic: inert physical lines, CRLF"""
     base = impl_load(text, b)
     if str(base.get('err', '')).startswith('Other:'):
         return None
     t2 = insert_inert(r, text, eol=eol)
+    if not inert_variant(text, t2):
+        return None         # (cannot happen; guards the oracle against a generator that alters a kept line)
     got = impl_load(t2, b)
     if got != base:
         return {'class': 'legacy.comment-or-blank-line-not-inert', 'legacy_oracle': 'C', 'file_text': text, 'variant_text': t2, 'observed': show(got),
@@ -588,6 +607,9 @@ def replay(ce, b):
     if kind == 'B':
         return oracle_B(ce['file_text'], unshow_expected(ce['required']), b)
     if kind == 'C':
+        if not inert_variant(ce['file_text'], ce['variant_text']):
+            print('replay: the stored variant is not the file with blank / comment lines inserted (stale replay of a generator defect)')
+            return None
         base = impl_load(ce['file_text'], b)
         got = impl_load(ce['variant_text'], b)
         if got != base:
